@@ -405,6 +405,175 @@ def make_shape_case(seed, cid, quick=True, kind=None):
     return L
 
 
+# ---------------------------------------------------------------------------------------------------------------
+# grids, and the certificate-based powerset lifting (harness/run_pswiden.cc, ocaml/judge_pswiden.ml)
+GRID_ROUTES = ["copy", "cgs", "mcgs", "ggens", "mggens", "both", "aff", "aff_mg", "aff_mc", "addc", "addg", "gq", "cq"]
+POLY_LAZY_ROUTES = ["copy", "cons", "mcons", "gens", "mgens", "both", "aff", "aff_mg", "aff_mc", "pendc", "pendg", "gq", "cq"]
+GRID_WIDENINGS = ["congruence", "generator"]
+PRIMES = [2, 3, 5, 7]
+
+
+def fmt_cgs(cs):
+    return "cgs %d %s" % (len(cs), " ".join("%d %d %s" % (m, b, " ".join(map(str, a))) for (m, b, a) in cs)) if cs else "cgs 0"
+
+
+def grid_elem(r, n):
+    """Congruences (m, b, a): a.x + b = 0 (mod m); m = 0 is an equality. All hold at an integer point c."""
+    c = [r.randint(-3, 3) for _ in range(n)]
+    cs, seen = [], set()
+    for _ in range(r.randint(1, n + 1)):
+        a = [0] * n
+        if n == 1 or r.random() < 0.6:
+            a[r.randrange(n)] = r.choice([1, 1, 1, 2, -1])
+        else:
+            i, j = r.sample(range(n), 2); a[i] = r.choice([1, -1, 2]); a[j] = r.choice([1, -1, 3])
+        if tuple(a) in seen: continue
+        seen.add(tuple(a))
+        m = 0 if r.random() < 0.35 else r.choice([2, 3, 4, 6, 8, 12, 16, 64])
+        v = sum(a[i] * c[i] for i in range(n))
+        cs.append([m, -v, a])
+    return cs
+
+
+def grid_loosen(r, cs):
+    """One step up: equality -> congruence, modulus divided by a prime factor, modulus 1 dropped."""
+    cs = [list(k) for k in cs]
+    if not cs: return cs
+    k = r.choice(cs)
+    if k[0] == 0: k[0] = r.choice([4, 6, 8, 12, 64])
+    elif k[0] == 1: cs.remove(k)
+    else:
+        ps = [p for p in PRIMES if k[0] % p == 0]
+        k[0] = k[0] // r.choice(ps) if ps else 1
+    return cs
+
+
+def make_grid_case(seed, cid, quick=True):
+    r = random.Random(seed)
+    n = r.choice([1, 2, 2, 3])
+    ys = [grid_elem(r, n)]
+    for _ in range(r.randint(4, 7) if quick else r.randint(6, 10)):
+        ys.append(grid_loosen(r, ys[-1]))
+    L = ["case %s" % cid, "# family=grid dim=%d topo=G length=%d seed=%d" % (n, len(ys), seed)]
+    nid = [0]
+    def fresh():
+        nid[0] += 1; return nid[0] - 1
+    def new_y(y):
+        i = fresh(); L.append("new %d G %d %s" % (i, n, fmt_cgs([tuple(k) for k in y]))); return i
+    y0 = new_y(ys[0]); L.append("cert %d" % y0)
+    X = {w: y0 for w in GRID_WIDENINGS}
+    p_extra = 0.45 if quick else 0.7
+    for k in range(1, len(ys)):
+        yk = new_y(ys[k])
+        for w in GRID_WIDENINGS:
+            x = X[w]
+            a = fresh(); L.append("join %d %d %d" % (a, x, yk))
+            ra, rb = [a], [x]
+            for _ in range(2):
+                i = fresh(); L.append("mk %d %s %d %d" % (i, r.choice(GRID_ROUTES), a, r.randrange(1 << 20))); ra.append(i)
+                i = fresh(); L.append("mk %d %s %d %d" % (i, r.choice(GRID_ROUTES), x, r.randrange(1 << 20))); rb.append(i)
+            # every representation of the smaller argument must have the same certificate
+            for i in rb[1:]:
+                L.append("cert %d" % i); L.append("#! samecert %d %d" % (x, i))
+            pairs = [(ra[0], rb[0]), (ra[1], rb[1]), (ra[2], rb[r.choice([0, 2])])]
+            res = []
+            for (ia, ib) in pairs:
+                i = fresh(); L.append("widen %s %d %d %d -1" % (w, i, ia, ib)); res.append(i)
+            L.append("#! same %d %d" % (res[0], res[1])); L.append("#! same %d %d" % (res[0], res[2]))
+            L.append("cert %d" % res[0]); L.append("cert %d" % res[1]); L.append("#! samecert %d %d" % (res[0], res[1]))
+            j = r.choice([0, 0, 1])
+            nx, yop = res[j], pairs[j][1]
+            L.append("cmp %d %d" % (yop, nx))
+            if r.random() < 0.3: L.append("cmp %d %d" % (nx, yop))
+            L.append("#! step %s %d %d" % (w, yop, nx))
+            if r.random() < p_extra:
+                for (t, pi) in [(1, 0), (r.choice([2, 3]), 1), (0, 2)]:
+                    i = fresh(); L.append("widen %s %d %d %d %d plain %d" % (w, i, pairs[pi][0], pairs[pi][1], t, res[pi]))
+            if r.random() < p_extra:
+                cs = []
+                for _ in range(r.randint(1, 3)):
+                    aa = [0] * n; aa[r.randrange(n)] = 1
+                    cs.append((r.choice([0, 1, 2, 3, 4]), r.randint(-3, 3), aa))
+                i = fresh(); L.append("lim %s %d %d %d -1 %s plain %d" % (w, i, pairs[0][0], pairs[0][1], fmt_cgs(cs), res[0]))
+                jj = fresh(); L.append("lim %s %d %d %d -1 %s plain %d" % (w, jj, pairs[1][0], pairs[1][1], fmt_cgs(cs), res[1]))
+                L.append("#! same %d %d" % (i, jj))
+            X[w] = nx
+    L.append("end")
+    return L
+
+
+def box_elem(r, n):
+    c = [r.randint(-3, 3) for _ in range(n)]
+    cs = []
+    for i in range(n):
+        lo, hi = c[i] - r.randint(0, 2), c[i] + r.randint(0, 2)
+        v = [0] * n; v[i] = 1; cs.append([">=", -lo, v])
+        v = [0] * n; v[i] = -1; cs.append([">=", hi, v])
+    if n > 1 and r.random() < 0.4:
+        i, j = r.sample(range(n), 2); v = [0] * n; v[i] = 1; v[j] = r.choice([1, -1])
+        cs.append([">=", r.randint(0, 2) - (c[i] * v[i] + c[j] * v[j]), v])
+    return cs
+
+
+def box_loosen(r, cs):
+    cs = [[k[0], k[1], list(k[2])] for k in cs]
+    k = r.choice(cs)
+    if r.random() < 0.1 and len(cs) > 1: cs.remove(k)
+    else: k[1] += r.choice([1, 1, 2, 3])
+    return cs
+
+
+def make_ps_case(seed, cid, quick=True, dom=None):
+    r = random.Random(seed)
+    dom = dom or r.choice(["G", "G", "P"])
+    n = r.choice([1, 2, 2, 3]) if dom == "G" else r.choice([1, 2, 2])
+    combos = [("Grid", "default"), ("Grid", "congruence"), ("Grid", "generator")] if dom == "G" else [("BHRZ03", "H79"), ("BHRZ03", "BHRZ03"), ("H79", "H79")]
+    cn, w = r.choice(combos)
+    routes = GRID_ROUTES if dom == "G" else POLY_LAZY_ROUTES
+    L = ["case %s" % cid, "# family=powerset-%s dim=%d topo=%s cert=%s widening=%s seed=%d" % (dom, n, dom, cn, w, seed)]
+    nid = [0]
+    def fresh():
+        nid[0] += 1; return nid[0] - 1
+    elems = []          # descriptions of the elements met so far
+    def new_e(desc):
+        i = fresh()
+        L.append("new %d %s %d %s" % (i, dom, n, fmt_cgs([tuple(k) for k in desc]) if dom == "G" else fmt_cons([tuple(k) for k in desc])))
+        elems.append(desc)
+        return i
+    mk_e = (lambda: grid_elem(r, n)) if dom == "G" else (lambda: box_elem(r, n))
+    loosen = (lambda d: grid_loosen(r, d)) if dom == "G" else (lambda d: box_loosen(r, d))
+    e0, e1 = new_e(mk_e()), new_e(mk_e())
+    wid = fresh(); L.append("psnew %d %s %d 2 %d %d" % (wid, dom, n, e0, e1))
+    kname = "ps%s.%s.%s" % (dom, cn, w)
+    for _ in range(r.randint(4, 7) if quick else r.randint(6, 10)):
+        # the chain goes up by one disjunct: a loosened copy of an element met before (or, rarely, a new one),
+        # arriving in a random lazy state
+        desc = loosen(r.choice(elems)) if r.random() < 0.85 else mk_e()
+        e = new_e(desc)
+        el = fresh(); L.append("mk %d %s %d %d" % (el, r.choice(routes), e, r.randrange(1 << 20)))
+        L.append("cert %d" % e); L.append("cert %d" % el); L.append("#! samecert %d %d" % (e, el))
+        x = fresh(); L.append("psadd %d %d %d" % (x, wid, el))
+        x2 = fresh(); L.append("psmk %d %d %d" % (x2, x, r.randrange(1 << 20)))
+        w2 = fresh(); L.append("psmk %d %d %d" % (w2, wid, r.randrange(1 << 20)))
+        r1 = fresh(); L.append("pswiden %s %s %d %d %d" % (cn, w, r1, x, wid))
+        r2 = fresh(); L.append("pswiden %s %s %d %d %d" % (cn, w, r2, x2, w2))
+        L.append("#! pssame %s %d %d" % (kname, r1, r2))
+        wid = r.choice([r1, r1, r2])
+    L.append("end")
+    return L
+
+
+def make_ps_cases(seed, n, quick=True, start=0):
+    out = []
+    for i in range(n):
+        r = random.Random(seed * 100019 + i)
+        if r.random() < 0.45:
+            out.append(make_grid_case(seed * 100019 + i + 7001, "G%d" % (start + i), quick))
+        else:
+            out.append(make_ps_case(seed * 100019 + i + 9001, "S%d" % (start + i), quick))
+    return out
+
+
 def make_cases(seed, n, quick=True, start=0, shapes=0.3):
     out = []
     for i in range(n):
